@@ -365,8 +365,32 @@ Definition kind_tag (k : errkind) : bytes :=
    not taken out of the result): the glue is the identity. *)
 Definition handed_to_assert (reference_client : bool) (reported : result) : result := reported.
 
+(* ... and the DEFINITION it hands to assert is the library's test case itself: every
+   part of it that assert reads (the other allowed error codes, the request's stream
+   type; the expected response is [e] below) arrives as the library holds it, although
+   the request that went out to the client is a modified copy (target, credentials,
+   added headers).  The glue is the identity here as well. *)
+Definition def_handed_to_assert (reference_client : bool) (d : def) : def := d.
+
 Definition run_errs (reference_client : bool) (d : def) (e reported : result) : list errkind :=
-  assert_errs d e (handed_to_assert reference_client reported).
+  assert_errs (def_handed_to_assert reference_client d) e (handed_to_assert reference_client reported).
+
+(* Probes that read the definition back out of the recorded verdicts: the expected
+   result reported with each error code in turn (message and details of the expected
+   error kept: only the code decides) - the codes that do not draw [ECode] are the
+   primary code and the alternatives of the definition that reached assert; and the
+   expected result with all its metadata reported as headers / as trailers - accepted
+   only where the stream type that reached assert allows the merged form. *)
+Definition probe_code (e : result) (c : N) : result :=
+  let '(m, ds) := match r_error e with Some ee => (e_msg ee, e_details ee) | None => (None, []) end in
+  mkR (r_headers e) (r_trailers e) (r_payloads e) (Some (mkE c m ds)) (r_status e) (r_unsent e).
+Definition probe_all_headers (e : result) : result :=
+  mkR (r_headers e ++ r_trailers e) [] (r_payloads e) (r_error e) (r_status e) (r_unsent e).
+Definition probe_all_trailers (e : result) : result :=
+  mkR [] (r_headers e ++ r_trailers e) (r_payloads e) (r_error e) (r_status e) (r_unsent e).
+Definition probe_codes : list N := [1;2;3;4;5;6;7;8;9;10;11;12;13;14;15;16].
+Definition def_probes (e : result) : list result :=
+  map (probe_code e) probe_codes ++ [probe_all_headers e; probe_all_trailers e].
 
 Definition run_c03_assert (args : list sx) : sx :=
   or_bad (match args with
@@ -384,6 +408,17 @@ Definition run_c03_run (args : list sx) : sx :=
     do ref <- un_bool ref; do d <- un_def d; do e <- un_result e; do a <- un_result a;
     let errs := run_errs ref d e a in
     ret (L [sx_bool (is_nil errs); L (map B (sort_bytes (map kind_tag errs)))])
+  | _ => None end).
+
+(* (reference-client def expected) -> one (pass (sorted kinds)) per probe of [def_probes]:
+   the definition that reached assert, as far as assert reads it *)
+Definition run_c03_rundef (args : list sx) : sx :=
+  or_bad (match args with
+  | [ref; d; e] =>
+    do ref <- un_bool ref; do d <- un_def d; do e <- un_result e;
+    ret (L (map (fun a => let errs := run_errs ref d e a in
+                          L [sx_bool (is_nil errs); L (map B (sort_bytes (map kind_tag errs)))])
+                (def_probes e)))
   | _ => None end).
 
 (* ((vals...)) -> (canonical vals) *)
@@ -406,5 +441,6 @@ Definition run_c03_merge (args : list sx) : sx :=
 Definition c03_table : list (bytes * (list sx -> sx)) :=
   [ (bs "c03.assert", run_c03_assert);
     (bs "c03.run", run_c03_run);
+    (bs "c03.rundef", run_c03_rundef);
     (bs "c03.canon", run_c03_canon);
     (bs "c03.merge", run_c03_merge) ].
